@@ -230,7 +230,7 @@ func runCodec(in, out string, _ []string) error {
 				// (the digests are taken from a copy: measuring the module itself would refresh what the first
 				// emission left in it)
 				ev := modelDigests(proto.Clone(m).(*sysl.Module))
-				ev["t"], ev["e"] = sc.ID, "model"
+				ev["t"], ev["e"] = sc.ID, "edited"
 				w.Emit(ev)
 				fs := afero.NewMemMapFs()
 				err := libEncode(m, "pb", "model.pb", fs, pbutil.OutputOptions{})
